@@ -60,14 +60,14 @@ func (s *Sim) Scenario() *ScenarioOut {
 	r := s.R
 	nb := nonceBook{}
 	out := &ScenarioOut{}
-	pick := r.Intn(23)
+	pick := r.Intn(25)
 	forced := false
 	if s.ForceScenario > 0 {
 		pick = s.ForceScenario - 1
 		s.ForceScenario = 0
 		forced = true
 	}
-	if !forced && pick >= 20 {
+	if !forced && pick >= 22 {
 		pick = 4 // the proposal life cycle is the longest template: give it more weight
 	}
 	switch pick {
@@ -500,6 +500,22 @@ func (s *Sim) Scenario() *ScenarioOut {
 		out.deliver = append(out.deliver, s.specN(nb, u, ctrlertypes.TRX_STAKING, u.Addr, Rigo(uint64(r.Range(6, 9))), nil).Build())
 		out.deliver = append(out.deliver, s.specN(nb, u, ctrlertypes.TRX_STAKING, u.Addr, Rigo(uint64(r.Range(1, 5))), nil).Build())
 		s.scnA, s.scnHash = nil, nil
+	case 21: // deploy the balance-view contract (RETURNs BALANCE(arg)): the vm_call probes after every commit use it
+		if !s.Opt.WithEVM {
+			return nil
+		}
+		for i := range s.Contracts {
+			if s.Contracts[i].Prog.Name == "balanceview" {
+				return nil
+			}
+		}
+		us := s.userKeys(1)
+		if len(us) < 1 {
+			return nil
+		}
+		p := evmgen.Program{Name: "balanceview", Init: evmgen.BalanceViewInit(), NeedsArg: true}
+		s.PendingProg[string(p.Init)] = p
+		out.deliver = append(out.deliver, s.specN(nb, us[0], ctrlertypes.TRX_CONTRACT, rtypes.ZeroAddress(), nil, &ctrlertypes.TrxPayloadContract{Data: p.Init}).Build())
 	case 6: // a contract transaction sent by / sent to / touching the proposer of this block
 		if !s.Opt.WithEVM || s.Cur == nil || len(s.Cur.Proposer) == 0 || len(s.Contracts) == 0 {
 			return nil
